@@ -6,6 +6,7 @@ package main
 
 import (
 	"fmt"
+	"go/token"
 	"go/types"
 	"sort"
 	"strings"
@@ -239,6 +240,40 @@ type guardedField struct {
 
 func runC11(w *World, c *Check) {
 	c.Rule("C11.guarded", "reads of sessions.Entries, session.{authTime,endTime,renewTill,tgt,sessionKey,sessionKeyExpiration,cancel} and client.Cache.Entries hold the owning mutex (R/W), writes hold it in W mode", 30)
+	c.Rule("C11.snapshot", "the values a session hands out together were stored together: tgtDetails and timeDetails read every field they return themselves, inside one acquisition of the session's mutex (two critical sections can straddle an update and pair the ticket of one issue with the key of the next)", 2)
+	for _, fk := range []string{"client.(*session).tgtDetails", "client.(*session).timeDetails"} {
+		fn := w.Func(fk)
+		if fn == nil {
+			c.Missing("C11.snapshot", fk)
+			continue
+		}
+		fa := NewFuncAnRaw(w, fn)
+		locks := fa.Calls(`sync\.\(\*RWMutex\)\.(RLock|Lock)`)
+		var bad []string
+		if len(locks) != 1 {
+			bad = append(bad, fmt.Sprintf("%d lock acquisitions in the function", len(locks)))
+		}
+		// nothing is fetched through another function (which would take and release the lock by itself)
+		for _, b := range fn.Blocks {
+			for _, in := range b.Instrs {
+				if call, isCall := in.(ssa.CallInstruction); isCall {
+					if f := call.Common().StaticCallee(); f != nil && f.Pkg != nil && inModule(f.Pkg.Pkg.Path()) {
+						bad = append(bad, "a value is fetched through "+FuncKey(f)+", outside this function's critical section")
+					}
+				}
+			}
+		}
+		for _, ci := range locks {
+			for _, b := range fn.Blocks {
+				for _, in := range b.Instrs {
+					if u, isU := in.(*ssa.UnOp); isU && u.Op == token.MUL && strings.HasPrefix(fa.R.R(u), "recv.") && !strings.HasPrefix(fa.R.R(u), "recv.mux") && !instrDominates(ci, in) {
+						bad = append(bad, "the read of "+fa.R.R(u)+" is not preceded by the lock acquisition")
+					}
+				}
+			}
+		}
+		c.Decide(len(bad) == 0, "C11.snapshot", fk, "one-critical-section", w.Pos(fn.Pos()), "every returned value is a field of the session read under the one lock acquisition of the function", strings.Join(bad, "; "))
+	}
 	c.Rule("C11.shared-write", "a store through memory reachable from the *Client receiver, in a context rooted at an exported Client method, is under a mutex of the same or an enclosing object", 1)
 	c.Rule("C11.readonly", "Config.GetKDCs, GetKpasswdServers, ResolveRealm and JSON do not write through memory aliased from the configuration", 4)
 	c.Rule("C11.permutation", "randServOrder hands out the configured servers once each: every step draws among those that remain and removes exactly the drawn one", 5)
